@@ -10,7 +10,11 @@ RULE = ("every acyclic ADMG(n) and ancestral ANC(n) graph, n<=3 quick / n<=4 tho
         "streams, 25 % of the random graphs): the object is first built for a neighbour graph with the same node and edge counts "
         "(graphs.perturb), the same queries are run and discarded, the object is edited in place (graphs.morph) and only then judged; odd "
         "seeds also query a copy(); 5-node streams: the two-chain DAG x->i->y, x->p->q->y under all 120 labelings and 150/1500 dense "
-        "5-node DAGs/ADMGs with non-empty I (some with frozenset arguments); custom edge-type names ('dir','bidir','undir') passed "
+        "5-node DAGs/ADMGs with non-empty I (some with frozenset arguments); ARGUMENT INTEGRITY in every query: the i / r / z arguments are real set objects, snapshotted before and "
+        "compared after each call, the same objects are reused for a second call (answers must agree), the set returned by "
+        "minimal_m_separator is fed to is_minimal_m_separator twice (must stay intact and be judged True), the documented defaults "
+        "i=None / r=None are compared with the explicit sets; a third of the n<=3 graphs also as ADMG instances; "
+        "custom edge-type names ('dir','bidir','undir') passed "
         "explicitly on half of the n<=3 graphs, an eighth of the 4-node and random ones. distinct by (canonical graph, label family, "
         "repeat seed, layer names, argument kind); non-trivial = "
         "some query has a non-empty minimal separator and some query has none")
@@ -143,6 +147,10 @@ def gen_cases(tier, rng):
     # REPEAT stream: warm-up on a neighbour graph, in-place edit of the same object, then the judged queries
     for j, c in enumerate(small):
         yield dict(c, kind=c["kind"] + ":rep", rep=1000 + j)
+    # object kinds: the same queries on an ADMG instance (every third with a warm-up and an in-place edit)
+    for j, c in enumerate(small):
+        if j % 3 == 1:
+            yield dict(c, kind=c["kind"] + ":admg", obj="admg", **({"rep": 2000 + j} if j % 9 == 1 else {}))
     # custom edge-type names passed explicitly (beyond the property's quantifier; cheap)
     for j, c in enumerate(small):
         if j % 2 == 0:
@@ -214,6 +222,9 @@ CUSTOM_NAMES = ["dir", "bidir", "undir"]
 def build(g, case):
     """MixedEdgeGraph for g; case["names"] = custom layer names [directed, bidirected, undirected] (passed explicitly to the API)"""
     names = case.get("names")
+    if case.get("obj") == "admg":
+        M, lab, inv = gr.to_admg(g, case)          # an ADMG instance (its three layers) where a MixedEdgeGraph is expected
+        return M, lab, inv, {}, {k: n for k, n in gr.LAYER_NAMES.items() if k in "DBU"}
     if not names:
         M, lab, inv = gr.to_mixed(g, case)
         return M, lab, inv, {}, dict(gr.LAYER_NAMES)
@@ -227,27 +238,68 @@ def build(g, case):
 
 
 def _queries(M, lab, inv, kw, qs, argkind=None):
+    """every set argument is a real object that is snapshotted before and compared after each call; the same Z object is
+    used for two consecutive calls, and the set returned by minimal_m_separator is fed to is_minimal_m_separator twice"""
     import networkx as nx
     import pywhy_graphs.networkx as pywhy_nx
     mk = frozenset if argkind == "frozenset" else set
     res = []
-    for x, y, I, R, Zs in qs:
+
+    def ismin(Zs, Is, Rs):
         try:
-            z = pywhy_nx.minimal_m_separator(M, lab(x), lab(y), i=mk(lab(v) for v in I), r=mk(lab(v) for v in R), **kw)
+            return int(bool(pywhy_nx.is_minimal_m_separator(M, lx, ly, Zs, i=Is, r=Rs, **kw)))
+        except nx.NetworkXError:
+            return 2
+        except Exception as e:  # noqa
+            return "exc:" + type(e).__name__
+
+    for x, y, I, R, Zs in qs:
+        lx, ly = lab(x), lab(y)
+        Iset, Rset = mk(lab(v) for v in I), mk(lab(v) for v in R)
+        I0, R0 = frozenset(Iset), frozenset(Rset)
+        integ = []
+        try:
+            z = pywhy_nx.minimal_m_separator(M, lx, ly, i=Iset, r=Rset, **kw)
             ms = None if z is None else sorted(inv(v) for v in z)
         except Exception as e:  # noqa
-            ms = "exc:" + type(e).__name__
+            z, ms = None, "exc:" + type(e).__name__
+        if Iset != I0 or Rset != R0:
+            integ.append("minimal_m_separator changed its i / r argument")
+        if z is not None and (z is Iset or z is Rset):
+            integ.append("minimal_m_separator returned one of its argument objects")
+        if not I and set(R) == set(inv(v) for v in M.nodes) - {x, y}:
+            # the documented defaults: i=None -> empty, r=None -> all nodes
+            try:
+                zd = pywhy_nx.minimal_m_separator(M, lx, ly, **kw)
+                msd = None if zd is None else sorted(inv(v) for v in zd)
+            except Exception as e:  # noqa
+                msd = "exc:" + type(e).__name__
+            if (msd is None) != (ms is None) or isinstance(msd, str) != isinstance(ms, str):
+                integ.append("defaults i=None, r=None answer differently from the explicit sets")
+        if isinstance(z, (set, frozenset)):
+            # round trip on the very object that was returned, twice
+            z0 = frozenset(z)
+            b1 = ismin(z, Iset, Rset)
+            if z != z0:
+                integ.append("is_minimal_m_separator changed the Z object returned by minimal_m_separator")
+            b2 = ismin(z, Iset, Rset)
+            if (b1, b2) != (1, 1):
+                integ.append("round trip: returned Z judged %r then %r" % (b1, b2))
         ism = []
         for Z in Zs:
-            try:
-                b = pywhy_nx.is_minimal_m_separator(M, lab(x), lab(y), mk(lab(v) for v in Z),
-                                                    i=mk(lab(v) for v in I), r=mk(lab(v) for v in R), **kw)
-                ism.append(int(bool(b)))
-            except nx.NetworkXError:
-                ism.append(2)
-            except Exception as e:  # noqa
-                ism.append("exc:" + type(e).__name__)
-        res.append({"minsep": ms, "ismin": ism})
+            Zset = mk(lab(v) for v in Z)
+            Z0 = frozenset(Zset)
+            b = ismin(Zset, Iset, Rset)
+            if Zset != Z0 or Iset != I0 or Rset != R0:
+                integ.append("is_minimal_m_separator changed its z / i / r argument")
+                Zset = mk(Z0) if Zset != Z0 else Zset
+                Iset, Rset = mk(I0), mk(R0)
+            elif argkind != "frozenset":
+                b2 = ismin(Zset, Iset, Rset)      # the same objects again
+                if b2 != b:
+                    integ.append("second call with the same argument objects: %r then %r" % (b, b2))
+            ism.append(b)
+        res.append({"minsep": ms, "ismin": ism, "integrity": sorted(set(integ))})
     return res
 
 
@@ -332,6 +384,8 @@ def compare(case, impl, model):
         return d[0][1]
     if impl["mutated"]:
         return "argument-mutated"
+    if any(r.get("integrity") for r in impl["res"]):
+        return "argument-integrity"
     if impl.get("copy_differs"):
         return "copy-after-warm-up"
     return None
@@ -342,6 +396,10 @@ def classify(case, impl, model):
     if "exc" in impl:
         return None
     d = _query_diffs(case, impl, model)
+    if not d:
+        for r in impl["res"]:
+            if r.get("integrity"):
+                return "argument-integrity:" + r["integrity"][0].split(":")[0]
     if not d or any(o == "model-vs-oracle" for _, o, _ in d):
         return None
     k, obs, det = d[0]
@@ -363,7 +421,8 @@ def nontrivial(case, model):
 
 
 def key(case):
-    return (gr.canon(case["g"]), case.get("_lab", "int"), case.get("rep"), tuple(case.get("names") or ()), case.get("argkind"))
+    return (gr.canon(case["g"]), case.get("_lab", "int"), case.get("rep"), tuple(case.get("names") or ()), case.get("argkind"),
+            case.get("obj"))
 
 
 def shrink(case):
